@@ -17,7 +17,7 @@ CLAIMED = {
    design="6/C01"),
  "C02": dict(
    technique="runtime monitoring: trace-specification checker over recorded yield/resume/body event logs of instrumented generator pipelines (reference-free laws + list model) + differential reference-model monitor, four allocation stress modes",
-   text="Generator pipelines (leaf, map, filter, chain, take, nest, relay, zip) written in calc with every yield bracketed by trace writes are consumed by loops at top level, in functions, at recursion depth, after other (composed) loops of the same statement and with early returns; the event log must satisfy the suspension-stack, body-after-yield, resume-after-body, exactly-once and abandon laws and match a list model. The same pipelines untraced (also with directly nested consumers), generator-heavy typed sessions and a yield-operand family (global/captured/local/parameter/constant/expression operands with bodies that reassign them and generators that recurse 0..180 deep between their yields) are compared with the reference semantics; so are sessions in which generators yield closures (directly or from a call below the defining frame) that the consumer keeps, calls, returns out of the loop and calls again after the context was recycled, and the C03 depth sweep (loops running d frames below live loops).",
+   text="Generator pipelines (leaf, map, filter, chain, take, nest, relay, zip) written in calc with every yield bracketed by trace writes are consumed by loops at top level, in functions, at recursion depth, after other (composed) loops of the same statement and with early returns; the event log must satisfy the suspension-stack, body-after-yield, resume-after-body, exactly-once and abandon laws and match a list model. The same pipelines untraced (also with directly nested consumers), generator-heavy typed sessions and a yield-operand family (global/captured/local/parameter/constant/expression operands with bodies that reassign them and generators that recurse 0..180 deep between their yields, and generators that read a global again right after the body assigned it) are compared with the reference semantics; so are sessions in which generators yield closures (directly or from a call below the defining frame) that the consumer keeps, calls, returns out of the loop and calls again after the context was recycled, and the C03 depth sweep (loops running d frames below live loops).",
    note="Trace laws need no model of calc; the list model of constant-leaf pipelines and harness/rs are trusted for the value sequences.",
    design="6/C02"),
  "C03": dict(
@@ -27,7 +27,7 @@ CLAIMED = {
    design="6/C03"),
  "C04": dict(
    technique="runtime monitoring: differential reference-model monitor + globals-frame monitor (complete global frame compared after every statement) + caller-frame self-checks executed by the program under test",
-   text="Name-pressure sessions reuse 2..5 names as global/parameter/local/for-variable/captured/inner local across three nesting levels; each function snapshots every visible name before and after each call it makes (any difference prints a DIFF marker), updates captured variables between calls, and lets closures escape directly, in arrays and in arrays of arrays, which are then called after deep recursion overwrote the dead frames; loop bounds are computed from the outer variable that has the loop variable's name; closure-plumbing sessions (hof family) define sibling closures in one call, route them through other functions (returned unchanged, picked, wrapped in a capturing closure, yielded by a generator and returned out of the consuming loop) while the defining call is live and its variables change, let them escape, and call them again after other calls, deep recursion and recycled iterator contexts; parameter lists that repeat a name (every parameter keeps its own slot, the name denotes the later one) followed by locals, closures and loops; all observations are compared with the reference and the whole global frame is compared after every statement.",
+   text="Name-pressure sessions reuse 2..5 names as global/parameter/local/for-variable/captured/inner local across three nesting levels; each function snapshots every visible name before and after each call it makes (any difference prints a DIFF marker), updates captured variables between calls, and lets closures escape directly, in arrays and in arrays of arrays, which are then called after deep recursion overwrote the dead frames; loop bounds are computed from the outer variable that has the loop variable's name; closure-plumbing sessions (hof family) define sibling closures in one call, route them through other functions (returned unchanged, picked, wrapped in a capturing closure, yielded by a generator and returned out of the consuming loop) while the defining call is live and its variables change, let them escape, and call them again after other calls, deep recursion and recycled iterator contexts; parameter lists that repeat a name (every parameter keeps its own slot, the name denotes the later one) followed by locals, closures and loops, and parameters, locals and loop variables spelled like built-in functions and called; generators that are closures and run loops of their own whose iterator expressions read captured variables, consumed at call depth 0..4 below callers that hold captured variables of their own (genclosures family); all observations are compared with the reference and the whole global frame is compared after every statement.",
    note="Names are declared before any loop of a function body so static and dynamic lookup cannot differ (agreed region rule 1).",
    design="6/C04"),
  "C05": dict(
@@ -37,17 +37,17 @@ CLAIMED = {
    design="6/C05"),
  "C09": dict(
    technique="runtime monitoring: invariant assertion at statement boundaries on hooked machine state (residue) + N-scaling monitor on hooked max stack pointer / live contexts at loop back-edges",
-   text="After every statement of typed and directed sessions (both compile modes) the hooked (sp, frame, closure, live-context) counts must equal their values before it (all zero after a failure). Loop programs of six loop kinds x nine body tails are run with 3/30/300 iterations; the max stack pointer per memory kind and max live contexts at back-edges must be identical. Loop bodies include guard trees (if / if-else nests of never-taken returns) and generator functions called directly; a corpus session covers yields without a consumer.",
+   text="After every statement of typed and directed sessions (both compile modes) the hooked (sp, frame, closure, live-context) counts must equal their values before it (all zero after a failure). Loop programs of six loop kinds x nine body tails are run with 3/30/300 iterations; the max stack pointer per memory kind and max live contexts at back-edges must be identical. Loop bodies include guard trees (if / if-else nests of never-taken returns), zipped loops with an iterator expression that makes no call (zero iterations), and generator functions called directly; corpus sessions cover yields without a consumer (also computed operands at top level) and call-free iterator expressions.",
    note="Relies on the verif accessors for sp/fp/closure/context counts and the step hook's per-memory maxima.",
    design="6/C09"),
  "C10": dict(
    technique="runtime monitoring: shadow-copy invariant monitor (every value ever produced is deep-copied and re-compared after every operation) over value-package operation histories + globals-frame differential on structure-sharing sessions",
-   text="Histories of concatenations, slices, element reads and NewArray over existing values run on the real value package with up to 64 live values re-read after every operation against their deep copies and a model; array/string sessions that share structure (slices of slices, concat onto slices with spare capacity, partially constant literals, literal-returning functions, recursion on slices, generator prefixes, closures holding slices) have their whole global frame compared with the reference after every statement; closure-plumbing sessions (arrays/strings captured by sibling closures and by closures a generator yields, routed through other functions and called again after other calls, deep recursion and recycled iterator contexts) are compared the same way; the value-package histories hold nil, float and int elements side by side and include == / != between live values.",
+   text="Histories of concatenations, slices, element reads and NewArray over existing values run on the real value package with up to 64 live values re-read after every operation against their deep copies and a model; array/string sessions that share structure (slices of slices, concat onto slices with spare capacity, partially constant literals, literal-returning functions, recursion on slices, generator prefixes, closures holding slices) have their whole global frame compared with the reference after every statement; closure-plumbing sessions (arrays/strings captured by sibling closures and by closures a generator yields, routed through other functions and called again after other calls, deep recursion and recycled iterator contexts) are compared the same way; the value-package histories hold nil, float and int elements side by side, strings long enough to reach 32..200 bytes extended more than once, and include == / != between live values; the sessions also extend one long concatenation result twice and append one-element literals with a computed element to slices and call results.",
    note="ARR (array literal building) is reached only through programs; shadow copies use the harness value type.",
    design="6/C10"),
  "C08": dict(
    technique="runtime monitoring: twin-run monitor (failure session vs a session that re-creates the completed globals by literal assignments) + residue assertion on hooked state after each failure + differential reference-model monitor",
-   text="Sessions prefix·F·suffix with F a parse error or one of the seven runtime error classes raised at top level, at call depth up to 200, in loop bodies, in (nested) generators after the k-th yield, in closures, or several in a row are compared statement-by-statement with a twin that never saw F but holds the same globals, and with the reference; the hooked machine state must be clean after every failure and unchanged by a parse error; handed to the REPL/file loop's processInput as multi-statement inputs (greedy grouping that provably parses into the same statements) the failing part and the suffix must print and leave exactly what they do one statement per input.",
+   text="Sessions prefix·F·suffix with F a parse error or one of the seven runtime error classes (index errors from one- and two-bound accesses) raised at top level, at call depth up to 200, in loop bodies, in (nested) generators after the k-th yield, in closures, or several in a row are compared statement-by-statement with a twin that never saw F but holds the same globals, and with the reference; the hooked machine state must be clean after every failure and unchanged by a parse error; handed to the REPL/file loop's processInput as multi-statement inputs (greedy grouping that provably parses into the same statements) the failing part and the suffix must print and leave exactly what they do one statement per input.",
    note="Completed globals are literal-printable by construction; helper definitions inside F are replayed verbatim in the twin.",
    design="6/C08"),
  "C12": dict(
@@ -67,7 +67,7 @@ CLAIMED = {
    design="6/C14"),
  "C06": dict(
    technique="runtime monitoring: invariant hooks (lexer/TLexer progress bounds), span and error-display assertions, state-unchanged assertion around processInput",
-   text="parser.Parse is run on prefixes of all corpus programs, random bytes, token soup, mutations, nesting to depth 5000 and 10^5-character literals under logical progress bounds; panics, bound trips, out-of-input spans, failing error displays and any execution of an erroneous input (through processInput in-process and through `calc -eval` on the real binary) are violations.",
+   text="parser.Parse is run on prefixes of all corpus programs, random bytes, token soup, mutations, nesting to depth 5000 (16 shapes, among them blocks whose nested construct is not their first statement) and 10^5-character literals under logical progress bounds; panics, bound trips, out-of-input spans, failing error displays and any execution of an erroneous input (through processInput in-process and through `calc -eval` on the real binary) are violations.",
    note="Termination is decided as bounded progress (>=100x slack over measured maxima, reported in the evidence); nesting deeper than 5000 is out of reach (Go stack).",
    design="6/C06"),
  "C13": dict(
@@ -97,7 +97,7 @@ CLAIMED = {
    design="6/C17"),
  "C19": dict(
    technique="runtime monitoring: trace-specification checker over the recorded error report (parsed) against the reference semantics' call/coroutine trace and the step hook's last dispatched instruction",
-   text="Failing statements of every error class at call depth up to 200, in loops, (nested) generators, pipeline stage functions, closures, function-valued parameters and built-ins, calls whose parameters and operands hold awkward values (arrays of 8..12 elements starting with empty strings, format verbs, renderings around the 20 character abbreviation limit), callees named through captured variables, failures inside recycled iterator contexts, calls inside while conditions failing at the loop-back test, multi-byte values, one session in twenty with a compiler-refused statement in the middle, each session ending in two more failing statements; the printed report is parsed and checked: header class, marked instruction equals the hook's last dispatched instruction and belongs to the failing operation's opcode family, every listed line shows the word that is at that address and its independent disassembly, listed operands are an ordered subset of the operands the operation saw, one context block per active coroutine with call-site names, argument counts and current argument values innermost first; never 'giving up', never a panic.",
+   text="Failing statements of every error class at call depth up to 200, in loops, (nested) generators, pipeline stage functions, closures, function-valued parameters and built-ins, calls whose parameters and operands hold awkward values (arrays of 8..12 elements starting with empty strings, format verbs, renderings around the 20 character abbreviation limit; also as the variable of a failing in-place increment or decrement, local or global), callees named through captured variables, failures inside recycled iterator contexts, calls inside while conditions failing at the loop-back test, multi-byte values, one session in twenty with a compiler-refused statement in the middle, each session ending in two more failing statements; the printed report is parsed and checked: header class, marked instruction equals the hook's last dispatched instruction and belongs to the failing operation's opcode family, every listed line shows the word that is at that address and its independent disassembly, listed operands are an ordered subset of the operands the operation saw, one context block per active coroutine with call-site names, argument counts and current argument values innermost first; never 'giving up', never a panic.",
    note="Operand-list completeness is not demanded; values are compared in the report's own 20-character abbreviation; a nil operand may be reported by the MOV that loads it.",
    design="6/C19"),
 }
